@@ -5,9 +5,9 @@
 use hnv_common::*;
 use huginn_net_db::db::FingerprintCollection;
 use huginn_net_db::db_matching_trait::{DatabaseSignature, FingerprintDb, ObservedFingerprint};
-use huginn_net_db::http::{self, Version};
+use huginn_net_db::http::{self, Header, Version};
 use huginn_net_db::observable_signals::{HttpRequestObservation, HttpResponseObservation, TcpObservation};
-use huginn_net_db::tcp::{self, IpVersion, PayloadSize};
+use huginn_net_db::tcp::{self, IpVersion, PayloadSize, TcpOption, WindowSize};
 use huginn_net_db::{Database, Label, Type};
 #[path = "../../c12/src/sigtext.rs"]
 mod sigtext;
@@ -156,6 +156,96 @@ fn g_http_obs(r: &mut Rng, db: &[Vec<http::Signature>]) -> http::Signature {
     o
 }
 
+// ---------------- crowded labels: more than 256 signatures under one label / more than 256 labels ----------------
+/// signature number `i` of a crowd: a cheap near-duplicate of `base` whose distinguishing field encodes `i`, so that the
+/// observation aimed at `i` has exactly one closest entry.  variant 0: mss, 1: raw window, 2: (olen, wscale),
+/// 3: option layout (decisive: the aimed signature is the ONLY acceptor and sits alone in its index bucket)
+fn crowd_tcp_sig(r: &mut Rng, base: &tcp::Signature, variant: u64, i: usize) -> tcp::Signature {
+    let mut s = base.clone();
+    match variant {
+        0 => s.mss = Some(1000 + i as u16),
+        1 => s.wsize = WindowSize::Value(2000 + i as u16),
+        2 => { s.olen = (i % 200) as u8; s.wscale = Some((i / 200) as u8); }
+        _ => s.olayout = vec![TcpOption::Mss, TcpOption::Unknown((i % 256) as u8), TcpOption::Eol((i / 256) as u8), TcpOption::Nop],
+    }
+    match r.below(8) { 0 => s.version = IpVersion::Any, 1 => s.pclass = PayloadSize::Any, 2 => { s.version = IpVersion::Any; s.pclass = PayloadSize::Any; } _ => {} }
+    s
+}
+fn crowd_http_sig(r: &mut Rng, variant: u64, i: usize) -> http::Signature {
+    let h = |n: &str, v: Option<String>, opt: bool| Header { optional: opt, name: n.to_string(), value: v };
+    let mut horder = vec![h("Host", None, false)];
+    let mut expsw = "Agent/".to_string();
+    match variant {
+        0 => expsw = format!("Agent-{}/", i),
+        1 => for n in ["Accept", "Accept-Language", "Cache-Control"] { horder.push(h(n, Some(format!("v{}", i)), false)); },
+        _ => for k in 0..6 { horder.push(h(&format!("n{}k{}", i, k), None, false)); },
+    }
+    horder.push(h("Accept-Encoding", Some("gzip".into()), true));
+    horder.push(h("Connection", Some("keep-alive".into()), false));
+    http::Signature { version: match r.below(4) { 0 => Version::V10, 1 => Version::Any, _ => Version::V11 }, horder,
+        habsent: vec![h("Via", None, false)], expsw }
+}
+/// positions worth aiming at in a label of `n` signatures: around the u8 / u9 boundaries, the last one, their aliases
+/// modulo 256, and two random ones
+fn crowd_targets(r: &mut Rng, n: usize) -> Vec<usize> {
+    let mut t: Vec<usize> = vec![];
+    for p in [255usize, 256, 257, 300, 511, 512, 513, n.saturating_sub(1)] { if p < n { t.push(p); if p >= 256 { t.push(p % 256); } } }
+    for _ in 0..2 { t.push(r.below(n as u64) as usize); }
+    t.sort(); t.dedup(); t
+}
+fn tcp_aimed(r: &mut Rng, s: &tcp::Signature, disturb: bool) -> tcp::Signature {
+    let mut o = s.clone();
+    concretise(r, &mut o);
+    if disturb { o.ittl = huginn_net_db::tcp::Ttl::Value(65); }
+    o
+}
+fn http_aimed(r: &mut Rng, s: &http::Signature, disturb: bool) -> http::Signature {
+    let mut o = s.clone();
+    if o.version == Version::Any { o.version = g_hver(r, false); }
+    o.horder.retain(|h| !(h.optional && disturb));
+    for h in o.horder.iter_mut().chain(o.habsent.iter_mut()) { h.optional = false; }
+    if disturb { o.habsent.clear(); }
+    o
+}
+/// `sizes[l]` signatures under label l; emits one case per aimed position of every crowded label
+fn crowd_tcp_cases(r: &mut Rng, variant: u64, sizes: &[usize], out: &mut Vec<String>) {
+    let base = r_tcp("4:v64:0:1460:s4:7:m,k,t,n,w:0,1:0");
+    let mut next = 0usize;
+    let db: Vec<Vec<tcp::Signature>> = sizes.iter().map(|&n| (0..n).map(|_| { let s = crowd_tcp_sig(r, &base, variant, next); next += 1; s }).collect()).collect();
+    let text = p_entries(&db, p_tcp);
+    for (l, sigs) in db.iter().enumerate() {
+        let targets = if sigs.len() > 200 { crowd_targets(r, sigs.len()) } else { vec![r.below(sigs.len() as u64) as usize] };
+        for p in targets {
+            let dis = variant < 2 && r.chance(1, 4); let o = tcp_aimed(r, &sigs[p], dis);
+            out.push(format!("{} {} {}", if (l + p) % 2 == 0 { "T" } else { "U" }, p_tcp(&o), text));
+        }
+    }
+}
+fn crowd_http_cases(r: &mut Rng, variant: u64, sizes: &[usize], out: &mut Vec<String>) {
+    let mut next = 0usize;
+    let db: Vec<Vec<http::Signature>> = sizes.iter().map(|&n| (0..n).map(|_| { let s = crowd_http_sig(r, variant, next); next += 1; s }).collect()).collect();
+    let text = p_entries(&db, p_http);
+    for (l, sigs) in db.iter().enumerate() {
+        let targets = if sigs.len() > 200 { crowd_targets(r, sigs.len()) } else { vec![r.below(sigs.len() as u64) as usize] };
+        for p in targets {
+            let dis = variant < 2 && r.chance(1, 4); let o = http_aimed(r, &sigs[p], dis);
+            out.push(format!("{} {} {}", if (l + p) % 2 == 0 { "H" } else { "R" }, p_http(&o), text));
+        }
+    }
+}
+/// more than 256 labels, one (sometimes two) signatures each; aimed at labels around 256 and their aliases
+fn many_labels_cases(r: &mut Rng, out: &mut Vec<String>) {
+    let n = r.range(258, 330) as usize;
+    let base = r_tcp("4:v64:0:1460:s4:7:m,k,t,n,w:0,1:0");
+    let tdb: Vec<Vec<tcp::Signature>> = (0..n).map(|i| { let mut v = vec![crowd_tcp_sig(r, &base, (i % 2) as u64 * 3, i)]; if r.chance(1, 6) { v.push(crowd_tcp_sig(r, &base, 1, 700 + i)); } v }).collect();
+    let hdb: Vec<Vec<http::Signature>> = (0..n).map(|i| vec![crowd_http_sig(r, 0, i)]).collect();
+    let (tt, ht) = (p_entries(&tdb, p_tcp), p_entries(&hdb, p_http));
+    for l in crowd_targets(r, n) {
+        let o = tcp_aimed(r, &tdb[l][0], false); out.push(format!("T {} {}", p_tcp(&o), tt));
+        let o = http_aimed(r, &hdb[l][0], false); out.push(format!("H {} {}", p_http(&o), ht));
+    }
+}
+
 fn gen(r: &mut Rng, tier: &Tier, out: &mut Vec<String>) {
     // ---- stream 1: random databases x observations derived from their entries ----
     for _ in 0..tier.scale(700, 5000) {
@@ -225,6 +315,27 @@ fn gen(r: &mut Rng, tier: &Tier, out: &mut Vec<String>) {
             let slice = &db[a..b];
             let o = g_http_obs(r, slice); out.push(format!("{} {} {}", k, p_http(&o), p_entries(slice, p_http)));
         }
+    }
+    // ---- stream 4: crowded labels (positions beyond a byte): 257..600 near-duplicate signatures under one label, every
+    //      distinguishing field variant, observations aimed at positions 255,256,257,300,511,512,513,last and their aliases
+    //      modulo 256; a second label before / after the crowded one; more than 256 labels ----
+    for round in 0..tier.scale(1, 5) {
+        for variant in 0..4u64 {
+            let n = r.range(257, 330) as usize;
+            let sizes: Vec<usize> = match (variant + round as u64) % 3 { 0 => vec![n], 1 => vec![r.range(1, 5) as usize, n], _ => vec![n, r.range(1, 5) as usize] };
+            crowd_tcp_cases(r, variant, &sizes, out);
+        }
+        for variant in 0..3u64 {
+            let n = r.range(257, 330) as usize;
+            let sizes: Vec<usize> = match (variant + round as u64) % 3 { 0 => vec![r.range(1, 5) as usize, n], 1 => vec![n], _ => vec![n, r.range(1, 5) as usize] };
+            crowd_http_cases(r, variant, &sizes, out);
+        }
+        // beyond 512, two crowded labels
+        let v = r.below(4); let sizes = [r.range(514, 600) as usize, r.range(257, 300) as usize];
+        crowd_tcp_cases(r, v, &sizes, out);
+        let v = r.below(2); let sizes = [r.range(257, 300) as usize, r.range(514, 600) as usize];
+        crowd_http_cases(r, v, &sizes, out);
+        many_labels_cases(r, out);
     }
 }
 
